@@ -50,6 +50,7 @@ void Result::absorb_sim()
     sim.nested += s.nested;
     sim.preemptions += s.preemptions;
     sim.checked += s.checked;
+    sim.clock_faults += s.clock_faults;
     for (int i = 0; i < 9; i++)
         sim.team_hist[i] += s.team_hist[i];
     sim.max_team = std::max(sim.max_team, s.max_team);
@@ -94,6 +95,7 @@ Value gen_sim(Rng& g, bool allow_shortfall)
     v["pct_depth"]   = g.range(1, 4);
     v["starve_tid"]  = g.range(0, 7);
     v["shortfall_p"] = (allow_shortfall && g.chance(0.35)) ? g.uniform(0.05, 0.5) : 0.0;
+    v["clock_jump_p"] = g.chance(0.3) ? g.loguniform(1e-3, 0.2) : 0.0;
     return v;
 }
 Value canonical_sim()
@@ -105,6 +107,7 @@ Value canonical_sim()
     v["pct_depth"]   = 1;
     v["starve_tid"]  = 0;
     v["shortfall_p"] = 0.0;
+    v["clock_jump_p"] = 0.0;
     return v;
 }
 sim::Config sim_from(const Value& v)
@@ -116,6 +119,7 @@ sim::Config sim_from(const Value& v)
     c.pct_depth   = (int)v.at("pct_depth").as_int(2);
     c.starve_tid  = (int)v.at("starve_tid").as_int(1);
     c.shortfall_p = v.at("shortfall_p").as_double(0);
+    c.clock_jump_p = v.at("clock_jump_p").as_double(0);
     c.monitor     = v.has("monitor") ? v.at("monitor").as_bool(true) : true;
     return c;
 }
